@@ -182,3 +182,14 @@ Example C12_nonvacuous_bad_version :
   let buf := [128; 2; 0; 1; 0; 0; 0; 0; 0; 0; 0; 0] in
   4 <= len buf /\ N.land (unbe (take 4 buf)) 4294901760 <> 2147549184 /\ r_message_begin buf = Err e_bad_version.
 Proof. cbv zeta. split; [vm_compute; discriminate|]. split; [vm_compute; discriminate|reflexivity]. Qed.
+
+(* ---- closed form of the stream round trip (coordinator, after merging C04): every source whose
+        script cannot stall; the reader contract is discharged in Proofs/StreamInst.v ---- *)
+From GV Require Import Spec.Cursor Proofs.BufWriterRef Proofs.BufReaderP Proofs.StreamInst.
+
+Theorem C12_msg_rt_stream_closed : forall s name ty seq rest,
+  spos s = 0 -> may_stall (schunks s) = false -> sdata s = enc_msg name ty seq ++ rest ->
+  len name < two31 -> in_signed 32 seq ->
+  exists st', sr_message_begin (new_reader s) = (st', Ok (name, (ty mod 65536)%Z, seq)) /\
+              r_readlen st' = len (enc_msg name ty seq).
+Proof. exact sr_msg_rt_closed. Qed.
